@@ -221,6 +221,10 @@ func c17Run(w *W) {
 	} {
 		tables = append(tables, t)
 	}
+	// a substitution inside a value that names an alias whose expansion is still in progress: never expanded again
+	for _, t := range []map[string]string{{"x": "a $(x)"}, {"x": "y", "y": "a $(x)"}, {"x": "y ", "y": "$(x) b"}, {"x": "y", "y": "a `x`"}, {"x": "y ; a", "y": "z", "z": "b $(x)"}} {
+		tables = append(tables, t)
+	}
 	// values holding several commands that are themselves aliases (an outer alias still being read while an inner
 	// chain of aliases ends): three-entry tables x → {y, z}, y → z, z → text
 	for _, x := range []string{"y ; z", "y ; y", "y | z", "z ; y ; z", "y ; x", "( y ) ; z", "y ; a ; z"} {
